@@ -224,3 +224,9 @@ Proof. vm_compute. reflexivity. Qed.
 (* path assembly on a concrete chain: "/ab/c" *)
 Example ex_path : get_path [[99]; [97; 98]] = Ok [47; 97; 98; 47; 99].
 Proof. vm_compute. reflexivity. Qed.
+
+(* ---- non-vacuity of index_growth: all four hypotheses on one instance, and the run (independent audit) ---- *)
+Example ex_index_growth_hyps :
+  1 <= 128 < two64 /\ two64 <= 128 * 2 ^ N.of_nat 57 /\ 100 <= 128 /\ (exists q, 128 = 128 * q) /\
+  grow 57 128 1000 100 = Ok 2048.
+Proof. vm_compute. repeat split; try discriminate. exists 1. reflexivity. Qed.
